@@ -123,7 +123,21 @@ def _check(ctx: Ctx) -> None:
     flushes = [s for s in ast.walk(loop) if isinstance(s, ast.stmt) and is_flush_append(s, acc, out)]
     ctx.check(bool(flushes), "ACC1", f"{FN}: accumulated wait emitted inside the loop", function=FN,
               construct="accumulated wait never emitted inside the loop", message="", file=fi.file, node=loop)
+    # the accumulator starts empty
+    inits = [s_ for s_ in fi.node.body if isinstance(s_, ast.Assign) and any(isinstance(t, ast.Name) and t.id == acc for t in s_.targets)
+             and s_.lineno < loop.lineno]
+    ctx.check(len(inits) == 1 and isinstance(inits[0].value, ast.Constant) and inits[0].value.value == 0 and not isinstance(inits[0].value.value, bool), "ACC1",
+              f"{FN}: `{acc}` starts at 0", function=FN, construct="wait accumulator does not start at 0",
+              message=f"{[short(x) for x in inits]}: the first emitted wait would be off by the initial value", file=fi.file, node=inits[0] if inits else loop)
     for f in flushes:
+        # an emitted wait is taken out of the accumulator before anything else can be added to it
+        blk_f = _block_of(f)
+        i_f = blk_f.index(f)
+        nxt_reset = [s_ for s_ in blk_f[i_f + 1:] if isinstance(s_, ast.Assign) and any(isinstance(t, ast.Name) and t.id == acc for t in s_.targets)
+                     and isinstance(s_.value, ast.Constant) and s_.value.value == 0]
+        ctx.check(bool(nxt_reset), "ACC1", f"{FN}: the accumulator is emptied right after its value was emitted", function=FN,
+                  construct="wait accumulator not reset after an in-loop flush",
+                  message="the same ticks would be emitted again with the next event: the sequence grows longer", file=fi.file, node=f)
         g = getattr(f, "_parent", None)
         okg = isinstance(g, ast.If) and _is_positive_test(g.test, acc)
         ctx.check(okg, "ACC1", f"{FN}: in-loop flush guarded only by `{acc} > 0`", function=FN,
@@ -157,6 +171,16 @@ def _check(ctx: Ctx) -> None:
     sig_rules(ctx, fi, loop, m)
 
 
+def _nnf(e: ast.AST, neg: bool = False):
+    if isinstance(e, ast.UnaryOp) and isinstance(e.op, ast.Not):
+        yield from _nnf(e.operand, not neg)
+    elif isinstance(e, ast.BoolOp):
+        for v in e.values:
+            yield from _nnf(v, neg)
+    else:
+        yield e, neg
+
+
 def sig_rules(ctx: Ctx, fi, loop, m: str) -> None:
     """SIG: a signature event is dropped iff it repeats the one in force, component by component (shared with C15)."""
     p = ctx.p
@@ -173,8 +197,10 @@ def sig_rules(ctx: Ctx, fi, loop, m: str) -> None:
             inst = f"{FN}: {T} filter `{short(n.test, 80)}`"
             pairs = {}
             ok = True
+            negated = {id(leaf): neg for leaf, neg in _nnf(n.test)}
             for c in cmps:
-                if not (isinstance(c.ops[0], ast.NotEq) and isinstance(c.comparators[0], ast.Name)):
+                differs = isinstance(c.ops[0], ast.NotEq) != negated.get(id(c), False) if isinstance(c.ops[0], (ast.Eq, ast.NotEq)) else False
+                if not (differs and isinstance(c.comparators[0], ast.Name)):
                     ok = False
                 else:
                     pairs[c.left.attr] = c.comparators[0].id
